@@ -182,3 +182,28 @@ Example collect_nonvacuous :
   forallb (forallb (has_actions not_supported_combo [kABS_ZO; kELIM_MM; kP 1])) (same_model_groups ex_layer2) = true /\
   map fst (fst (collect not_supported_combo [kABS_ZO; kELIM_MM; kP 1] 0 ex_layer2)) = [PColl 0; PColl 1; PColl 2].
 Proof. repeat split; vm_compute; reflexivity. Qed.
+
+(* the reference parser on "TRANSITS(0..2,DEPOT);COVARIATE?(@P,[WGT,AGE],*,+)": canonical, printed, read back, elaborated *)
+From PV Require Import C18.MflParser.
+Definition ex_stmts : list MflParser.stmt :=
+  [mkS n_TRANSITS false [AVals [INum 0; INum 1; INum 2]; AVals [IWord v_DEPOT]];
+   mkS n_COVARIATE true [ARef [80]; AVals [IWord [87;71;84]; IWord [65;71;69]]; AWild; AVals [IWord v_PLUS]]].
+Example parser_nonvacuous :
+  canonical ex_stmts = true /\
+  stringify ex_stmts = [84;82;65;78;83;73;84;83;40;48;46;46;50;44;68;69;80;79;84;41;59;
+                        67;79;86;65;82;73;65;84;69;63;40;64;80;44;91;87;71;84;44;65;71;69;93;44;42;44;43;41] /\
+  parse_mfl (stringify ex_stmts) = Some ex_stmts /\
+  parse_ref [84;82;65;78;83;73;84;83;40;49;41] = Some [mkS n_TRANSITS false [AVals [INum 1]]] /\
+  parse_mfl [84;82;65;78;83;73;84;83;40;49;41] = Some [mkS n_TRANSITS false [AVals [INum 1]; AVals [IWord v_DEPOT]]] /\
+  parse_mfl [84;82;65;78;83;73;84;83;40;70;79;41] = None.
+Proof. repeat split; vm_compute; reflexivity. Qed.
+
+(* lnt optimality: model FO/FO/0 transits/0 peripherals/no lag against a space needing three transformations *)
+Example lnt_smallest_nonvacuous :
+  let a := dflt_space (MList [s_FO]) in
+  let b := pk_space (MList [s_ZO; s_SEQ_ZO_FO]) (MList [s_FO]) [mkP (MList [1; 3]) (MList [s_NODEPOT])]
+                    [mkP (MList [1; 2]) (MList [s_DRUG])] (MList [s_OFF]) in
+  wf_lnt_space a = true /\ wf_lnt_space b = true /\
+  needed_categories a b = [s_ABSORPTION; s_TRANSITS; s_PERIPHERALS] /\
+  (exists items, lnt_modelsearch a b = Ok items /\ length items = 3%nat).
+Proof. repeat split; try (vm_compute; reflexivity). eexists. split; vm_compute; reflexivity. Qed.
